@@ -19,6 +19,7 @@ Qed.
 Section S.
   Variable md5 : bytes -> bytes.
   Variable cfg : config.
+  Variable fs : N -> bool.      (* every statement holds under every allocation-failure oracle *)
 
   Definition slot_of (st : state) (s : nat) (i : N) : option nat := sl_rq (get_slot (get_server st s) i).
 
@@ -32,38 +33,39 @@ Section S.
   Qed.
 
   (* C11 (iii): an occupied slot is never written *)
-  Theorem internal_sendrq_occupied st s id h h' : slot_of st s id = Some h' -> internal_sendrq md5 cfg st s id h = None.
+  Theorem internal_sendrq_occupied st s id h h' : slot_of st s id = Some h' -> internal_sendrq md5 cfg fs st s id h = None.
   Proof. unfold slot_of, internal_sendrq. intro H. rewrite H. reflexivity. Qed.
 
   (* a successful insertion happens into an empty slot and announces exactly that identifier *)
-  Theorem internal_sendrq_out st s id h st' o : internal_sendrq md5 cfg st s id h = Some (st', o) ->
+  Theorem internal_sendrq_out st s id h st' o : internal_sendrq md5 cfg fs st s id h = Some (st', o) ->
     slot_of st s id = None /\ exists b, o = [OEnq s id b].
   Proof.
     unfold internal_sendrq, slot_of. destruct (sl_rq (get_slot (get_server st s) id)) as [x|]; [discriminate|].
     destruct (get_rq st h) as [r|]; [|discriminate]. destruct (rq_msg r) as [m|]; [|discriminate].
+    destruct (fs (100 + id)); [discriminate|].
     destruct (radmsg2buf md5 (set_id m id) (sc_secret (srvconf_of cfg s))) as [[[b a]|]|]; try discriminate.
     intro H. injection H as <- <-. split; [reflexivity | exists b; reflexivity].
   Qed.
 
   (* the scan stops at the first identifier of the range whose insertion succeeds *)
   Lemma scan_ids_some fuel : forall st s i limit h k st' o,
-    scan_ids md5 cfg fuel st s i limit h = Some (k, st', o) ->
-    i <= k < limit /\ internal_sendrq md5 cfg st s k h = Some (st', o).
+    scan_ids md5 cfg fs fuel st s i limit h = Some (k, st', o) ->
+    i <= k < limit /\ internal_sendrq md5 cfg fs st s k h = Some (st', o).
   Proof.
     induction fuel as [|fuel IH]; intros st s i limit h k st' o H; [discriminate|].
     cbn [scan_ids] in H. destruct (limit <=? i) eqn:L; [discriminate|].
-    destruct (internal_sendrq md5 cfg st s i h) as [[st1 o1]|] eqn:E.
+    destruct (internal_sendrq md5 cfg fs st s i h) as [[st1 o1]|] eqn:E.
     - injection H as <- <- <-. split; [lia | exact E].
     - destruct (IH _ _ _ _ _ _ _ _ H) as [R I]. split; [lia | exact I].
   Qed.
 
   Lemma scan_ids_none fuel : forall st s i limit h, (N.to_nat (limit - i) <= fuel)%nat ->
-    scan_ids md5 cfg fuel st s i limit h = None ->
-    forall j, i <= j < limit -> internal_sendrq md5 cfg st s j h = None.
+    scan_ids md5 cfg fs fuel st s i limit h = None ->
+    forall j, i <= j < limit -> internal_sendrq md5 cfg fs st s j h = None.
   Proof.
     induction fuel as [|fuel IH]; intros st s i limit h F H j Hj; [lia|].
     cbn [scan_ids] in H. destruct (limit <=? i) eqn:L; [lia|].
-    destruct (internal_sendrq md5 cfg st s i h) as [[st1 o1]|] eqn:E; [discriminate|].
+    destruct (internal_sendrq md5 cfg fs st s i h) as [[st1 o1]|] eqn:E; [discriminate|].
     destruct (N.eq_dec j i) as [->|NE]; [exact E|].
     apply (IH st s (i + 1) limit h); [lia | exact H | lia].
   Qed.
@@ -74,7 +76,7 @@ Section S.
 
   (* C11: every identifier sendrq hands out was free, and with status-server enabled identifier 0 is
      given to Status-Server probes only and a probe gets no other identifier *)
-  Theorem sendrq_ids st h st' o r s : sendrq md5 cfg st h = (st', o) ->
+  Theorem sendrq_ids st h st' o r s : sendrq md5 cfg fs st h = (st', o) ->
     get_rq st h = Some r -> rq_to r = Some s -> s_nextid (get_server st s) <= Consts.MAX_REQUESTS ->
     let statsrv_on := negb (s_statsrv (get_server st s) =? Consts.RSP_STATSRV_OFF) in
     let isprobe := match rq_msg r with Some m => m_code m =? Consts.RAD_Status_Server | None => false end in
@@ -90,7 +92,7 @@ Section S.
     destruct (negb (start =? 0) && ((match rq_msg r with Some m => m_code m | None => 0 end) =? Consts.RAD_Status_Server)) eqn:PB.
     - (* a probe on a server with status-server enabled: slot 0 or nothing *)
       apply andb_true_iff in PB as [S1 P1].
-      destruct (internal_sendrq md5 cfg st s 0 h) as [[st1 o1]|] eqn:E.
+      destruct (internal_sendrq md5 cfg fs st s 0 h) as [[st1 o1]|] eqn:E.
       + injection H as <- <-. destruct (internal_sendrq_out _ _ _ _ _ _ E) as [F (b & ->)].
         right. exists 0. cbn [enq_ids flat_map app].
         split; [reflexivity|]. split; [exact F|]. split; [reflexivity|]. intros _. split.
@@ -100,7 +102,7 @@ Section S.
     - set (nextid := if s_nextid sv =? 0 then start else s_nextid sv) in *.
       set (st0 := set_server st s (set_nextid sv nextid)) in *.
       assert (Hslot : forall i, slot_of st0 s i = slot_of st s i) by (intro i; apply slot_of_set_nextid).
-      assert (Hcase : forall k st1 o1, internal_sendrq md5 cfg st0 s k h = Some (st1, o1) -> start <= k -> k < Consts.MAX_REQUESTS ->
+      assert (Hcase : forall k st1 o1, internal_sendrq md5 cfg fs st0 s k h = Some (st1, o1) -> start <= k -> k < Consts.MAX_REQUESTS ->
                  exists id, enq_ids o1 = [(s, id)] /\ slot_of st s id = None /\ id < Consts.MAX_REQUESTS /\
                    (negb (s_statsrv sv =? Consts.RSP_STATSRV_OFF) = true ->
                     (id = 0 <-> match rq_msg r with Some m => m_code m =? Consts.RAD_Status_Server | None => false end = true))).
@@ -110,12 +112,12 @@ Section S.
         - intros ->. unfold start in Hk. rewrite (negb_true_iff _) in H0. rewrite H0 in Hk. lia.
         - intro P. exfalso. unfold start in PB. rewrite (proj1 (negb_true_iff _) H0) in PB. cbn [N.eqb negb andb] in PB.
           destruct (rq_msg r); [congruence | discriminate]. }
-      destruct (scan_ids md5 cfg 257 st0 s nextid Consts.MAX_REQUESTS h) as [[[k st1] o1]|] eqn:S1.
+      destruct (scan_ids md5 cfg fs 257 st0 s nextid Consts.MAX_REQUESTS h) as [[[k st1] o1]|] eqn:S1.
       + destruct (scan_ids_some _ _ _ _ _ _ _ _ _ S1) as [R E].
         assert (start <= k) by (unfold nextid in R; destruct (s_nextid sv =? 0) eqn:Z; lia || (unfold start in *; destruct (s_statsrv sv =? Consts.RSP_STATSRV_OFF); lia)).
         destruct (Hcase _ _ _ E) as (id & Q); [assumption | lia |].
         right. exists id. injection H as <- <-. exact Q.
-      + destruct (scan_ids md5 cfg 257 st0 s start nextid h) as [[[k st1] o1]|] eqn:S2.
+      + destruct (scan_ids md5 cfg fs 257 st0 s start nextid h) as [[[k st1] o1]|] eqn:S2.
         * destruct (scan_ids_some _ _ _ _ _ _ _ _ _ S2) as [R E].
           assert (Hn : nextid <= Consts.MAX_REQUESTS).
           { unfold nextid. destruct (s_nextid sv =? 0); [|exact Hcur].
@@ -160,10 +162,11 @@ Section S.
   Lemma keeps_set_server_same st s x : s_slots x = s_slots (get_server st s) -> keeps_slots st (set_server st s x).
   Proof. intros E s' j h H. rewrite slot_of_set_server_same by exact E. exact H. Qed.
 
-  Lemma internal_sendrq_keeps st s id h st' o : internal_sendrq md5 cfg st s id h = Some (st', o) -> keeps_slots st st'.
+  Lemma internal_sendrq_keeps st s id h st' o : internal_sendrq md5 cfg fs st s id h = Some (st', o) -> keeps_slots st st'.
   Proof.
     unfold internal_sendrq. destruct (sl_rq (get_slot (get_server st s) id)) as [x|] eqn:F; [discriminate|].
     destruct (get_rq st h) as [r|]; [|discriminate]. destruct (rq_msg r) as [m|]; [|discriminate].
+    destruct (fs (100 + id)); [discriminate|].
     destruct (radmsg2buf md5 (set_id m id) (sc_secret (srvconf_of cfg s))) as [[[b a]|]|]; try discriminate.
     intro H. injection H as <- <-. intros s' j h' Hs.
     unfold slot_of, get_server, set_server, set_rq, upd, get_slot, set_slot in *. cbn [st_servers s_slots] in *.
@@ -178,7 +181,7 @@ Section S.
   (* C11: a new request never displaces an outstanding one -- whatever sendrq does (insert, or drop and
      forget when the table is full or serialisation fails), every occupied slot of every server still
      holds the same request afterwards *)
-  Theorem sendrq_keeps st h st' o : sendrq md5 cfg st h = (st', o) -> keeps_slots st st'.
+  Theorem sendrq_keeps st h st' o : sendrq md5 cfg fs st h = (st', o) -> keeps_slots st st'.
   Proof.
     unfold sendrq. destruct (get_rq st h) as [r|] eqn:Hr; [|intro H; injection H as <- <-; apply keeps_refl].
     cbv zeta.
@@ -195,22 +198,22 @@ Section S.
     assert (Hnext : forall stx n, keeps_slots stx (set_server stx s (set_nextid (get_server stx s) n))).
     { intros stx n. apply keeps_set_server_same. reflexivity. }
     match goal with |- (if ?c then _ else _) = _ -> _ => destruct c end.
-    - destruct (internal_sendrq md5 cfg st s 0 h) as [[st1 o1]|] eqn:E; intro H; injection H as <- <-.
+    - destruct (internal_sendrq md5 cfg fs st s 0 h) as [[st1 o1]|] eqn:E; intro H; injection H as <- <-.
       + eapply keeps_trans; [eapply internal_sendrq_keeps; exact E | apply Hsig].
       + exact Hfail_st.
     - set (nextid := if s_nextid sv =? 0 then _ else _).
       set (st0 := set_server st s (set_nextid sv nextid)).
       assert (H0 : keeps_slots st st0) by apply Hnext.
-      assert (Hdone : forall i st1 o1, internal_sendrq md5 cfg st0 s i h = Some (st1, o1) ->
+      assert (Hdone : forall i st1 o1, internal_sendrq md5 cfg fs st0 s i h = Some (st1, o1) ->
                 keeps_slots st (set_server (if (if s_statsrv sv =? Consts.RSP_STATSRV_OFF then 0 else 1) <=? i
                                             then set_server st1 s (set_nextid (get_server st1 s) (i + 1)) else st1) s
                                   (set_newrq (get_server (if (if s_statsrv sv =? Consts.RSP_STATSRV_OFF then 0 else 1) <=? i
                                             then set_server st1 s (set_nextid (get_server st1 s) (i + 1)) else st1) s) true))).
       { intros i st1 o1 E. eapply keeps_trans; [exact H0|]. eapply keeps_trans; [eapply internal_sendrq_keeps; exact E|].
         eapply keeps_trans; [|apply Hsig]. destruct (_ <=? i); [apply Hnext | apply keeps_refl]. }
-      destruct (scan_ids md5 cfg 257 st0 s nextid Consts.MAX_REQUESTS h) as [[[k st1] o1]|] eqn:S1.
+      destruct (scan_ids md5 cfg fs 257 st0 s nextid Consts.MAX_REQUESTS h) as [[[k st1] o1]|] eqn:S1.
       + destruct (scan_ids_some _ _ _ _ _ _ _ _ _ S1) as [_ E]. intro H; injection H as <- <-. eapply Hdone; exact E.
-      + destruct (scan_ids md5 cfg 257 st0 s _ nextid h) as [[[k st1] o1]|] eqn:S2.
+      + destruct (scan_ids md5 cfg fs 257 st0 s _ nextid h) as [[[k st1] o1]|] eqn:S2.
         * destruct (scan_ids_some _ _ _ _ _ _ _ _ _ S2) as [_ E]. intro H; injection H as <- <-. eapply Hdone; exact E.
         * intro H; injection H as <- <-. eapply keeps_trans; [exact H0 | apply Hfail].
   Qed.
@@ -224,11 +227,12 @@ Section S.
     destruct off as [|[|off]]; try lia. cbn [firstn app nth length]. split; [reflexivity | lia].
   Qed.
 
-  Theorem internal_sendrq_wire_id st s id h st' o : internal_sendrq md5 cfg st s id h = Some (st', o) ->
+  Theorem internal_sendrq_wire_id st s id h st' o : internal_sendrq md5 cfg fs st s id h = Some (st', o) ->
     exists b, o = [OEnq s id b] /\ nth 1 b 0 = id.
   Proof.
     unfold internal_sendrq. destruct (sl_rq (get_slot (get_server st s) id)) as [x|]; [discriminate|].
     destruct (get_rq st h) as [r|]; [|discriminate]. destruct (rq_msg r) as [m|]; [|discriminate].
+    destruct (fs (100 + id)); [discriminate|].
     destruct (radmsg2buf md5 (set_id m id) (sc_secret (srvconf_of cfg s))) as [[[b a]|]|] eqn:R; try discriminate.
     intro H. injection H as <- <-. exists b. split; [reflexivity|].
     unfold radmsg2buf in R. cbv zeta in R.
@@ -263,17 +267,19 @@ Section R.
   Variable md5 : bytes -> bytes.
   Variable rx : N -> bytes -> option (list (Z * Z)).
   Variable cfg : config.
+  Variable fs : N -> bool.
 
   (* C11: a reply is matched only against the request currently holding its Identifier -- when that slot
      is empty nothing is delivered to any client and no slot changes hands *)
   Theorem replyh_unmatched st s buf now rnd : slot_of st s (nth 1 buf 0) = None ->
-    exists r, snd (replyh md5 rx cfg st s buf now rnd) = [ORet r].
+    exists r, snd (replyh md5 rx cfg fs st s buf now rnd) = [ORet r].
   Proof.
     intro H. unfold replyh. cbv zeta.
     set (st0 := set_server st s (set_lost (get_server st s) 0)).
     assert (H0 : sl_rq (get_slot (get_server st0 s) (nth 1 buf 0)) = None).
-    { change (slot_of st0 s (nth 1 buf 0) = None). subst st0. rewrite slot_of_set_server_same by reflexivity. exact H. }
+    { change (slot_of st0 s (nth 1 buf 0) = None). subst st0. rewrite (slot_of_set_server_same fs) by reflexivity. exact H. }
     rewrite H0.
+    destruct (fs 20); [eexists; reflexivity|].
     destruct (buf2radmsg md5 buf (sc_secret (srvconf_of cfg s)) None) as [msg|]; [|eexists; reflexivity].
     destruct (negb (reply_codes (m_code msg))); eexists; reflexivity.
   Qed.
@@ -284,6 +290,7 @@ End R.
 Section F.
   Variable md5 : bytes -> bytes.
   Variable cfg : config.
+  Variable fs : N -> bool.
 
   Definition cache_entry (st : state) (c : nat) (id : N) : option nat := nth (N.to_nat id) (c_rqs (get_client st c)) None.
 
@@ -307,7 +314,7 @@ Section F.
   Lemma get_client_set_server st s x c : get_client (set_server st s x) c = get_client st c.
   Proof. reflexivity. Qed.
 
-  Theorem sendrq_drop_forgets st h st' o r c : sendrq md5 cfg st h = (st', o) ->
+  Theorem sendrq_drop_forgets st h st' o r c : sendrq md5 cfg fs st h = (st', o) ->
     get_rq st h = Some r -> rq_from r = Some c -> enq_ids o = [] ->
     cache_entry st' c (rq_rqid r) = None.
   Proof.
@@ -318,20 +325,20 @@ Section F.
                                  | None => stx end) h) c (rq_rqid r) = None).
     { intros stx Hx _. rewrite Hx, Hf. unfold cache_entry, get_client. rewrite clients_freerq.
       apply (rmclientrq_forgets stx h r c Hx Hf). }
-    assert (Hins : forall stx s i st1 o1, internal_sendrq md5 cfg stx s i h = Some (st1, o1) -> enq_ids o1 <> []).
-    { intros stx s i st1 o1 E. destruct (internal_sendrq_out _ _ _ _ _ _ _ _ E) as [_ (b & ->)]. discriminate. }
+    assert (Hins : forall stx s i st1 o1, internal_sendrq md5 cfg fs stx s i h = Some (st1, o1) -> enq_ids o1 <> []).
+    { intros stx s i st1 o1 E. destruct (internal_sendrq_out _ _ _ _ _ _ _ _ _ E) as [_ (b & ->)]. discriminate. }
     pose proof (Hfail st Hr eq_refl) as Hfail_st. rewrite Hr in Hfail_st.
     destruct (rq_to r) as [s|].
     - match type of H with (if ?c then _ else _) = _ => destruct c end.
-      + destruct (internal_sendrq md5 cfg st s 0 h) as [[st1 o1]|] eqn:E; injection H as <- <-.
+      + destruct (internal_sendrq md5 cfg fs st s 0 h) as [[st1 o1]|] eqn:E; injection H as <- <-.
         * exfalso. exact (Hins _ _ _ _ _ E He).
         * exact Hfail_st.
-      + match type of H with context [scan_ids md5 cfg 257 ?st0 s ?a Consts.MAX_REQUESTS h] =>
-          destruct (scan_ids md5 cfg 257 st0 s a Consts.MAX_REQUESTS h) as [[[k st1] o1]|] eqn:S1 end.
-        * injection H as <- <-. destruct (scan_ids_some _ _ _ _ _ _ _ _ _ _ _ S1) as [_ E]. exfalso. exact (Hins _ _ _ _ _ E He).
-        * match type of H with context [scan_ids md5 cfg 257 ?st0 s ?a ?b h] =>
-            destruct (scan_ids md5 cfg 257 st0 s a b h) as [[[k st1] o1]|] eqn:S2 end.
-          -- injection H as <- <-. destruct (scan_ids_some _ _ _ _ _ _ _ _ _ _ _ S2) as [_ E]. exfalso. exact (Hins _ _ _ _ _ E He).
+      + match type of H with context [scan_ids md5 cfg fs 257 ?st0 s ?a Consts.MAX_REQUESTS h] =>
+          destruct (scan_ids md5 cfg fs 257 st0 s a Consts.MAX_REQUESTS h) as [[[k st1] o1]|] eqn:S1 end.
+        * injection H as <- <-. destruct (scan_ids_some _ _ _ _ _ _ _ _ _ _ _ _ S1) as [_ E]. exfalso. exact (Hins _ _ _ _ _ E He).
+        * match type of H with context [scan_ids md5 cfg fs 257 ?st0 s ?a ?b h] =>
+            destruct (scan_ids md5 cfg fs 257 st0 s a b h) as [[[k st1] o1]|] eqn:S2 end.
+          -- injection H as <- <-. destruct (scan_ids_some _ _ _ _ _ _ _ _ _ _ _ _ S2) as [_ E]. exfalso. exact (Hins _ _ _ _ _ E He).
           -- injection H as <- <-. apply Hfail; [rewrite get_rq_set_server; exact Hr | apply get_client_set_server].
     - injection H as <- <-. exact Hfail_st.
   Qed.
